@@ -772,6 +772,8 @@ Proof.
       intros k Hk. rewrite Hc by auto.
       change (@nil val) with (sub_list (icontent h a) (0, 0)). rewrite map_nth. reflexivity.
     + apply Nat.ltb_ge in Ha. rewrite (Hout Ha). reflexivity.
+  - (* OGuard *)
+    apply (lazy_step h (PGuard v a) (a <? nobjs h) Hinv). intros H. apply Nat.ltb_lt in H. exact H.
 Qed.
 
 (* ------------------------------------------------------------------ histories *)
